@@ -166,7 +166,13 @@ func loopRun(args []string) error {
 					trip = num(evalSCEV(l.TripCount, env))
 				}
 			}
-			loops = append(loops, map[string]any{"header": l.Header.Index, "ivs": ivs, "trip": trip, "trip_s": trips, "exits": len(l.Exits)})
+			phis := []string{}
+			for _, ins := range l.Header.Instrs {
+				if phi, ok := ins.(*ssa.Phi); ok {
+					phis = append(phis, phi.Comment)
+				}
+			}
+			loops = append(loops, map[string]any{"header": l.Header.Index, "ivs": ivs, "trip": trip, "trip_s": trips, "exits": len(l.Exits), "phis": phis})
 		}
 		tw.emit(map[string]any{"ev": "claim", "fn": c.Fn, "a": c.A, "n": c.N, "loops": loops})
 	}
